@@ -517,6 +517,31 @@ def flow_entries():
                                                    ("alt", "felt252")], "felt252",
                     "pick_member(BoxTrait::new(Pt { x, y: 22 }), c, alt).unbox()",
                     lambda x, c, alt: [(True, ok(vint(ite(c, i_(x), i_(alt)))))], tags=("flow",)))
+    E.append(BEntry("flow_box_unit", [("x", "felt252")], "felt252",
+                    "let a = opq7(x); let b = BoxTrait::new(()); let c = opq7(a); b.unbox(); "
+                    "a * 1000 + c",
+                    lambda x: [(True, ok(vint((i_(x) * 7 * 1000 + i_(x) * 49) % P)))], tags=("flow",),
+                    items="#[inline(never)]\nfn opq7(x: felt252) -> felt252 { x * 7 }\n"
+                          "#[derive(Copy, Drop)]\nstruct Empty {}\n"))
+    E.append(BEntry("flow_box_unit_call", [("x", "felt252")], "felt252",
+                    "let a = opq7(x); let b = BoxTrait::new(()); let r = eat_unit(b); a * 1000 + r",
+                    lambda x: [(True, ok(vint((i_(x) * 7000 + 100) % P)))], tags=("flow",),
+                    items="#[inline(never)]\nfn eat_unit(_b: Box<()>) -> felt252 { 100 }\n"
+                          "#[inline(never)]\nfn eat_empty(_b: Box<Empty>) -> felt252 { 200 }\n"
+                          "#[inline(never)]\nfn eat_u128(b: Box<u128>) -> felt252 { b.unbox().into() }\n"))
+    E.append(BEntry("flow_box_empty_call", [("x", "felt252")], "felt252",
+                    "let a = opq7(x); let r = eat_empty(BoxTrait::new(Empty {})); a * 1000 + r",
+                    lambda x: [(True, ok(vint((i_(x) * 7000 + 200) % P)))], tags=("flow",)))
+    E.append(BEntry("flow_box_const_call", [("x", "felt252")], "felt252",
+                    "let a = opq7(x); let r = eat_u128(BoxTrait::new(17_u128)); a * 1000 + r",
+                    lambda x: [(True, ok(vint((i_(x) * 7000 + 17) % P)))], tags=("flow",)))
+    E.append(BEntry("flow_box_empty_struct", [("x", "felt252")], "felt252",
+                    "let a = opq7(x); let b = BoxTrait::new(Empty {}); let _e = b.unbox(); a + 1",
+                    lambda x: [(True, ok(vint((i_(x) * 7 + 1) % P)))], tags=("flow",)))
+    E.append(BEntry("flow_box_const", [("x", "felt252")], "felt252",
+                    "let a = opq7(x); let b = BoxTrait::new(17_u128); let c: felt252 = b.unbox().into(); "
+                    "a + c",
+                    lambda x: [(True, ok(vint((i_(x) * 7 + 17) % P)))], tags=("flow",)))
     E.append(BEntry("flow_match_update", [("o", "Option<u8>"), ("s", "felt252")],
                     "(felt252, felt252)",
                     "let mut x = In2 { m: s, n: 1 }; match o { Some(v) => { x.m = v.into(); }, "
